@@ -40,9 +40,12 @@ class SubProcess(zope.testrunner.feature.Feature):
     def report(self):
         sys.stdout.close()
         # Communicate with the parent.  The protocol is obvious:
-        print(self.runner.ran,
-              len(self.runner.failures), len(self.runner.errors),
-              file=self.original_stderr)
+        counts = [self.runner.ran,
+                  len(self.runner.failures), len(self.runner.errors)]
+        if self.runner.skipped:
+            # optional fourth field, see spawn_layer_in_subprocess
+            counts.append(len(self.runner.skipped))
+        print(*counts, file=self.original_stderr)
         for test, exc_info in self.runner.failures:
             print(' '.join(str(test).strip().split('\n')),
                   file=self.original_stderr)
